@@ -97,6 +97,23 @@ def make_case(rng: random.Random, tier: str, thermal_p=0.25, mod_p=0.2, maxdeps=
             net = case["net"] = un
             case["spelling"] = "upper_replace"
             thermal_p = 0.0
+    if not case.get("spelling") and rng.random() < 0.15:
+        # an excited species next to its ground state (H2* / H2) and a cyclic isomer next to the plain formula (c-C3H2 / C3H2):
+        # different species, different slots, although the label characters cannot appear in an identifier
+        by = {s_["name"]: s_ for s_ in net["species"]}
+        extra = [{"name": "H2*", "comp": {"H": 2}, "charge": 0, "surface": False, "label": "*", "electron": False, "alias": "H2_I", "massnumber": 2},
+                 {"name": "c-C3H2", "comp": {"C": 3, "H": 2}, "charge": 0, "surface": False, "label": "c-", "electron": False, "alias": "c_C3H2I", "massnumber": 38},
+                 {"name": "C3H2", "comp": {"C": 3, "H": 2}, "charge": 0, "surface": False, "label": "", "electron": False, "alias": "C3H2I", "massnumber": 38}]
+        for e in extra:
+            by.setdefault(e["name"], e)
+        by.setdefault("H2", chem.make_species([("H", 2)]))
+        n0 = len(net["reactions"])
+        other = rng.choice([n for n in by if n not in ("H2*", "c-C3H2")])
+        for res, prs in ((["H2*"], ["H2"]), (["H2", other], ["H2*", other]), (["c-C3H2"], ["C3H2"]), (["C3H2", "H2*"], ["c-C3H2", "H2"])):
+            net["reactions"].append({"reactants": res, "products": prs, "pseudo": None, "idx": len(net["reactions"]) + 1})
+        used = {n for r in net["reactions"] for n in r["reactants"] + r["products"]} | set(net.get("required") or [])
+        net["species"] = [by[n] for n in sorted(used)]
+        case["labelled_pairs"] = True
     if rng.random() < thermal_p:
         case["cooling"] = add_thermal(rng, net)
     if rng.random() < mod_p:
@@ -181,6 +198,8 @@ def tags_of(case) -> set:
         t.add("spelling_" + case["spelling"])
     if case.get("rate_modifier"):
         t.add("rate_modifier")
+    if case.get("labelled_pairs"):
+        t.add("labelled_pairs")
     if any(s["surface"] for s in case["net"]["species"]):
         t.add("ice_species")
     if case.get("entry") == "files":
